@@ -4,75 +4,51 @@
 From Snax Require Import Base.Prelude Model.C20Phs Proofs.C20PhsProofs Proofs.C20DecodeProofs Proofs.C20SearchProofs.
 
 (* ---------------------------------------------------------------- alternatives *)
-Lemma find_op_some name ops k : find_op name ops = Some k -> In k ops /\ oname k = name.
-Proof.
-  induction ops as [|x r IH]; cbn [find_op]; [discriminate|].
-  destruct (oname x =? name) eqn:E.
-  - intros H. inversion H; subst. split; [left; reflexivity|apply Z.eqb_eq; exact E].
-  - intros H. destruct (IH H). split; [right|]; assumption.
-Qed.
+Lemma opk_eqb_refl k : opk_eqb k k = true.
+Proof. apply opk_eqb_eq. reflexivity. Qed.
 
-Lemma find_op_app_l name cur x k : find_op name cur = Some k -> find_op name (cur ++ x) = Some k.
+Lemma find_op_app_l k0 cur x k : find_op k0 cur = Some k -> find_op k0 (cur ++ x) = Some k.
 Proof.
   induction cur as [|y r IH]; cbn [find_op app]; [discriminate|].
-  destruct (oname y =? name); [auto|exact IH].
+  destruct (opk_eqb y k0); [auto|exact IH].
 Qed.
 
-Lemma find_op_in ops k : In k ops -> exists k', find_op (oname k) ops = Some k'.
+Lemma find_op_in ops k : In k ops -> exists k', find_op k ops = Some k'.
 Proof.
   induction ops as [|x r IH]; intros Hin; [contradiction|]. cbn [find_op].
-  destruct (oname x =? oname k) eqn:E; [eauto|].
-  destruct Hin as [->|Hin]; [rewrite Z.eqb_refl in E; discriminate|apply IH; exact Hin].
+  destruct (opk_eqb x k) eqn:E; [eauto|].
+  destruct Hin as [->|Hin]; [rewrite opk_eqb_refl in E; discriminate|apply IH; exact Hin].
 Qed.
 
-Lemma existsb_find_op name cur :
-  existsb (fun o => oname o =? name) cur = true -> exists k', find_op name cur = Some k'.
+Lemma existsb_find_op k0 cur :
+  existsb (opk_eqb k0) cur = true -> exists k', find_op k0 cur = Some k'.
 Proof.
-  induction cur as [|x r IH]; cbn [existsb find_op]; [discriminate|].
-  destruct (oname x =? name); [eauto|exact IH].
+  intros H. apply existsb_exists in H as (x & Hx & E). apply opk_eqb_eq in E. subst. apply find_op_in. exact Hx.
 Qed.
 
-Lemma find_op_app_new name cur :
-  existsb (fun o => oname o =? name) cur = false ->
-  find_op name (cur ++ [mkOp name 0]) = Some (mkOp name 0).
+Lemma insert_ops_keeps k0 : forall new cur k,
+  find_op k0 cur = Some k -> find_op k0 (insert_ops cur new) = Some k.
 Proof.
-  induction cur as [|x r IH]; cbn [existsb find_op app oname].
-  - intros _. rewrite Z.eqb_refl. reflexivity.
-  - destruct (oname x =? name); [discriminate|exact IH].
+  induction new as [|x xs IH]; intros cur k Hf; cbn [insert_ops]; [exact Hf|].
+  destruct (existsb (opk_eqb x) cur); [apply IH; exact Hf|].
+  apply IH. apply find_op_app_l. exact Hf.
 Qed.
 
-Lemma insert_ops_keeps name : forall new cur r k,
-  insert_ops cur new = Some r -> find_op name cur = Some k -> find_op name r = Some k.
+Lemma insert_ops_has : forall new cur k, In k new -> exists k', find_op k (insert_ops cur new) = Some k'.
 Proof.
-  induction new as [|x xs IH]; intros cur r k H Hf; cbn [insert_ops] in H.
-  - inversion H; subst. exact Hf.
-  - destruct (existsb (fun o => oname o =? oname x) cur); [eapply IH; eauto|].
-    destruct (default_constructible (oname x)); [|discriminate].
-    eapply IH; [exact H|]. apply find_op_app_l. exact Hf.
-Qed.
-
-Lemma insert_ops_has : forall new cur r,
-  insert_ops cur new = Some r -> forall k, In k new -> exists k', find_op (oname k) r = Some k'.
-Proof.
-  induction new as [|x xs IH]; intros cur r H k Hin; [contradiction|]. cbn [insert_ops] in H.
+  induction new as [|x xs IH]; intros cur k Hin; [contradiction|]. cbn [insert_ops].
   destruct Hin as [->|Hin].
-  - destruct (existsb (fun o => oname o =? oname k) cur) eqn:E.
-    + destruct (existsb_find_op _ _ E) as [k' Hk']. exists k'. eapply insert_ops_keeps; eauto.
-    + destruct (default_constructible (oname k)); [|discriminate].
-      exists (mkOp (oname k) 0). eapply insert_ops_keeps; [exact H|]. apply find_op_app_new. exact E.
-  - destruct (existsb (fun o => oname o =? oname x) cur); [eapply IH; eauto|].
-    destruct (default_constructible (oname x)); [|discriminate]. eapply IH; eauto.
+  - destruct (existsb (opk_eqb k) cur) eqn:E.
+    + destruct (existsb_find_op _ _ E) as [k' Hk']. exists k'. apply insert_ops_keeps. exact Hk'.
+    + destruct (find_op_in (cur ++ [k]) k) as [k' Hk']; [apply in_or_app; right; left; reflexivity|].
+      exists k'. apply insert_ops_keeps. exact Hk'.
+  - destruct (existsb (opk_eqb x) cur); apply IH; exact Hin.
 Qed.
 
-Lemma insert_ops_attr : forall new cur r,
-  insert_ops cur new = Some r -> forall k, In k r -> In k cur \/ oattr k = 0.
+Lemma insert_ops_nonempty : forall new cur, cur <> [] -> insert_ops cur new <> [].
 Proof.
-  induction new as [|x xs IH]; intros cur r H k Hin; cbn [insert_ops] in H.
-  - inversion H; subst. left. exact Hin.
-  - destruct (existsb (fun o => oname o =? oname x) cur); [eapply IH; eauto|].
-    destruct (default_constructible (oname x)); [|discriminate].
-    destruct (IH _ _ H k Hin) as [Hc|Hc]; [|right; exact Hc].
-    apply in_app_or in Hc as [Hc|[<-|[]]]; [left; exact Hc|right; reflexivity].
+  induction new as [|x xs IH]; intros cur Hc; cbn [insert_ops]; [exact Hc|].
+  destruct (existsb (opk_eqb x) cur); apply IH; [exact Hc|]. destruct cur; discriminate.
 Qed.
 
 (* ---------------------------------------------------------------- find_node under updates *)
@@ -187,15 +163,14 @@ Proof.
   unfold append_node. intros H (a0 & Ha0 & HF & Hops).
   destruct (find_node (pnodes G) (nid c')) as [a|] eqn:Ea.
   - destruct (uncollide_args G (pnsw G) (nargs c') (nargs a)) as [[args' n']|] eqn:Eu; [|discriminate].
-    destruct (insert_ops (nops a) (nops c')) as [ops'|] eqn:Ei; [|discriminate].
     inversion H; subst G1. clear H. unfold node_emb. cbn [pnodes].
     destruct (find_node_some _ _ _ Ea) as [_ Hida].
     destruct (ident_eqb (nid c) (nid c')) eqn:E.
     + apply ident_eqb_eq in E. rewrite E in *. rewrite Ea in Ha0. inversion Ha0; subst a0.
-      exists (mkNode (nid a) (nsw a) ops' args'). split; [|split].
+      exists (mkNode (nid a) (nsw a) (insert_ops (nops a) (nops c')) args'). split; [|split].
       * eapply find_replace_same; eauto.
       * cbn [nargs]. eapply arg_emb_mono; [exact HF|]. eapply uncollide_mono; eauto.
-      * cbn [nops]. intros k Hk. destruct (Hops k Hk) as [k' Hk']. exists k'. eapply insert_ops_keeps; eauto.
+      * cbn [nops]. intros k Hk. destruct (Hops k Hk) as [k' Hk']. exists k'. apply insert_ops_keeps. exact Hk'.
     + apply ident_eqb_neq in E. exists a0. split; [|split; assumption].
       rewrite find_replace_other; [exact Ha0|exact Hida|exact E].
   - destruct (map_opt (equiv_owner G) (nargs c')) as [es|]; [|discriminate].
@@ -208,12 +183,11 @@ Proof.
   unfold append_node. intros H.
   destruct (find_node (pnodes G) (nid c')) as [a|] eqn:Ea.
   - destruct (uncollide_args G (pnsw G) (nargs c') (nargs a)) as [[args' n']|] eqn:Eu; [|discriminate].
-    destruct (insert_ops (nops a) (nops c')) as [ops'|] eqn:Ei; [|discriminate].
     inversion H; subst G1. clear H. destruct (find_node_some _ _ _ Ea) as [_ Hida].
-    exists (mkNode (nid a) (nsw a) ops' args'). cbn [pnodes nargs nops]. split; [|split].
+    exists (mkNode (nid a) (nsw a) (insert_ops (nops a) (nops c')) args'). cbn [pnodes nargs nops]. split; [|split].
     + eapply find_replace_same; eauto.
     + eapply uncollide_self; eauto.
-    + eapply insert_ops_has; eauto.
+    + intros k Hk. apply insert_ops_has. exact Hk.
   - destruct (map_opt (equiv_owner G) (nargs c')) as [es|] eqn:Ee; [|discriminate].
     destruct (nops c') as [|k0 ks] eqn:Ek; [discriminate|]. inversion H; subst G1. clear H.
     exists (mkNode (nid c') (pnsw G) (k0 :: ks) es). cbn [pnodes nargs nops]. split; [|split].
@@ -227,7 +201,7 @@ Proof.
   unfold append_node. intros H.
   destruct (find_node (pnodes G) (nid c')) as [a|].
   - destruct (uncollide_args G (pnsw G) (nargs c') (nargs a)) as [[args' n']|]; [|discriminate].
-    destruct (insert_ops (nops a) (nops c')) as [ops'|]; [|discriminate]. inversion H; subst. auto.
+    inversion H; subst. auto.
   - destruct (map_opt (equiv_owner G) (nargs c')); [|discriminate].
     destruct (nops c'); [discriminate|]. inversion H; subst. auto.
 Qed.
